@@ -10,6 +10,7 @@
 //!    removed the entry; a pair that was never updated (or was forgotten) is not backed off.
 //!  Between expiry and the end of that cycle both answers are accepted (slack is documented).
 
+use crate::c32b::{self, BSys};
 use kit::ids::peer;
 use libp2p_gossipsub::verif_gs_unit::Backoff;
 use libp2p_gossipsub::TopicHash;
@@ -21,7 +22,7 @@ use std::time::{Duration, Instant};
 
 pub const META: Meta = Meta {
     level: "model_checking",
-    rule: "BFS over all histories of update(pair, d in {1,3,7} heartbeat intervals) / heartbeat / advance(1/2 interval) / advance(1 interval) on the real BackoffStorage (prune_backoff = 3 intervals, slack in {0,1}, 2 topic-peer pairs to depth 10 (quick); 2 pairs to depth 13 and 3 pairs to depth 9 (thorough)), virtual clock; states deduplicated on (reference deadlines relative to now, storage answers, slot phase). Non-trivial = states in which the storage holds at least one backoff entry.",
+    rule: "BFS over all histories of update(pair, d in {1,3,7} heartbeat intervals) / heartbeat / advance(1/2 interval) / advance(1 interval) on the real BackoffStorage (prune_backoff = 3 intervals, slack in {0,1}, 2 topic-peer pairs to depth 10 (quick); 2 pairs to depth 13 and 3 pairs to depth 9 (thorough)), virtual clock; states deduplicated on (reference deadlines relative to now, storage answers, slot phase). Behaviour level: BFS (depth 8 quick / 10 thorough) over local subscribe / unsubscribe / publish, remote SUBSCRIBE / GRAFT / PRUNE (no, 1 s, 2 x prune_backoff backoff field) of 2 peers, heartbeat, advance(1 interval) on a standalone real Behaviour (flood_publish off, prune_backoff 4 s, unsubscribe_backoff 2 s): no peer enters the mesh (heartbeat, JOIN incl. fanout promotion, remote SUBSCRIBE, remote GRAFT) before its reference backoff deadline. Non-trivial = states in which the storage holds at least one backoff entry / a reference backoff is pending.",
     explanation: "After every step each pair is compared with the reference deadline (max over updates of t+d): backed off and get_backoff_time >= deadline while now < deadline; entry gone after deadline + slack and one full heartbeat cycle; never-updated pairs not backed off. An un-deduplicated DFS to a smaller depth re-checks all paths without merging.",
     assumptions: &["2-3 (topic, peer) pairs, durations of 1/3/7 intervals (7 > table length: slot index wraps)", "time advances in half-interval steps"],
 };
@@ -213,6 +214,12 @@ pub fn run(ctx: &Ctx) -> Outcome {
     let mut out = Outcome::default();
     if let Some(case) = &ctx.replay {
         out.evaluations = 1;
+        if case["cfg"]["part"].as_str() == Some("behaviour") {
+            if let Err(m) = bfs::replay_history(BSys::new(), case) {
+                out.violation(bfs::signature_of(&m), m, case.clone());
+            }
+            return out;
+        }
         let slack = case["cfg"]["slack"].as_u64().unwrap_or(1);
         let np = case["cfg"]["pairs"].as_u64().unwrap_or(2) as u8;
         if let Err(m) = bfs::replay_history(Sys::new(slack, np), case) {
@@ -236,6 +243,36 @@ pub fn run(ctx: &Ctx) -> Outcome {
                 out.caps.push(format!("dfs companion capped at {n} sequences"));
             }
             bfs::record(&mut out, &cfg, &Default::default(), &v2);
+        }
+    }
+    // ---- behaviour level: every graft path of the real Behaviour against the reference backoff
+    {
+        let depth = ctx.tier.pick(8, 10);
+        let ddepth = ctx.tier.pick(3, 4);
+        let cfg: Value = json!({"part": "behaviour", "interval_ms": c32b::INTERVAL_MS, "prune_backoff_s": c32b::PRUNE_BACKOFF_S, "unsubscribe_backoff_s": c32b::UNSUB_BACKOFF_S, "slack": 1, "flood_publish": false, "peers": 2});
+        let (st, v) = bfs::bfs_replay(BSys::new, depth, 1_500_000);
+        bfs::record(&mut out, &cfg, &st, &v);
+        out.count("behaviour_bfs_depth", depth as u64);
+        out.count("behaviour_states", st.states);
+        let (n, capped, v2) = bfs::dfs_all(BSys::new, ddepth, 5_000_000);
+        out.count("dfs_companion_sequences", n);
+        out.evaluations += n;
+        out.traces += n;
+        if capped {
+            out.caps.push(format!("behaviour dfs companion capped at {n} sequences"));
+        }
+        bfs::record(&mut out, &cfg, &Default::default(), &v2);
+        for (k, c) in [
+            ("beh_obs_backed_off_peer_not_grafted", &c32b::B_REFUSED),
+            ("beh_obs_join_with_backed_off_fanout_peer", &c32b::B_JOIN_WITH_BACKED_OFF_FANOUT),
+            ("beh_obs_peer_grafted_after_backoff_elapsed", &c32b::B_INSERTED_AFTER_EXPIRY),
+            ("beh_obs_remote_graft_during_backoff", &c32b::B_REMOTE_GRAFT_REFUSED),
+        ] {
+            let n = c.load(Relaxed);
+            out.count(k, n);
+            if n == 0 {
+                out.machinery(format!("vacuity: situation '{k}' never occurred"));
+            }
         }
     }
     let npairs = plans[0].0;
